@@ -188,7 +188,7 @@ func (lf *Life) Step(d *Disk, ev *scen.CallEvent, nodeExec int) (*Expect, error)
 	if loc.Standalone {
 		if s := d.Solo[ex.File]; s != nil {
 			if s.Dirty {
-				ex.Dirty = true
+				ex.Dirty, ex.Why = true, "dirtyfile"
 				return ex, nil
 			}
 			prev = &s.Text
@@ -196,7 +196,7 @@ func (lf *Life) Step(d *Disk, ev *scen.CallEvent, nodeExec int) (*Expect, error)
 	} else {
 		f, i := d.find(ex.File, ev.Test, ex.K)
 		if f != nil && f.Dirty {
-			ex.Dirty = true
+			ex.Dirty, ex.Why = true, "dirtyfile"
 			return ex, nil
 		}
 		if i >= 0 {
